@@ -114,6 +114,11 @@ func (s *Schema) AddType(name string, sc jschema.Schema) (err error) {
 			return fmt.Errorf("load added type: %w", err)
 		}
 
+		if typ.inner.RootNode() == nil {
+			// A type without an example cannot be checked or validated against.
+			return fmt.Errorf("load added type: %w", errors.NewDocumentError(typ.file, errors.ErrEmptySchema))
+		}
+
 		// The type lives in its own file: errors found inside it carry positions
 		// relative to that file and must be rendered against it.
 		s.inner.AddNamedType(name, typ.inner, typ.file, 0)
